@@ -200,6 +200,8 @@ func checkC04(c *Ctx, r *Report) {
 	checkSchemeMembership(c, r, "C04.b")
 
 	checkEnforceFlag(c, r)
+	// the missing-security diagnostic, once recorded for a receiver, is never replaced or dropped
+	checkDiagnosticsAppendOnly(c, r, "C04.d")
 
 	ruleIRWriters(c, r, "C04.a", "definitions.RouteSecurity", "definitions.RouteMetadata")
 }
